@@ -28,8 +28,6 @@ pub struct TreeCfg {
     pub hash_ratio: Vec<f32>,
     pub index_part: Vec<bool>,
     pub filter_part: Vec<bool>,
-    /// partition size (bytes) of partitioned index and filter blocks; tiny values give several partitions per table
-    pub part_size: u32,
     pub pin_index: Vec<bool>,
     pub pin_filter: Vec<bool>,
     /// 0 = none, 1 = 1 bpk, 2 = 10 bpk, 3 = fpr 0.01, 4 = fpr 0.0001
@@ -59,7 +57,6 @@ impl TreeCfg {
             hash_ratio: vec![0.0],
             index_part: vec![false],
             filter_part: vec![false],
-            part_size: 4096,
             pin_index: vec![true],
             pin_filter: vec![true],
             filter: vec![2],
@@ -80,7 +77,6 @@ impl TreeCfg {
             hash_ratio: per_level(rng, &[0.0, 0.0, 0.75, 8.0]),
             index_part: per_level(rng, &[false, true]),
             filter_part: per_level(rng, &[false, true]),
-            part_size: *rng.pick(&[1, 16, 64, 256, 4096]),
             pin_index: per_level(rng, &[false, true]),
             pin_filter: per_level(rng, &[false, true]),
             filter: per_level(rng, &[0, 1, 2, 2, 3, 4]),
@@ -147,10 +143,6 @@ impl TreeCfg {
                 self.index_lz4.iter().map(lz).collect::<Vec<_>>(),
             ));
 
-        // public fields without a builder method
-        cfg.index_block_partition_size_policy = BlockSizePolicy::all(self.part_size);
-        cfg.filter_block_partition_size_policy = BlockSizePolicy::all(self.part_size);
-
         if let Some(kv) = &self.kv {
             cfg = cfg.with_kv_separation(Some(
                 KvSeparationOptions::default()
@@ -174,7 +166,6 @@ impl TreeCfg {
         o.set("hash_ratio", J::Arr(self.hash_ratio.iter().map(|x| J::Num(f64::from(*x))).collect()));
         o.set("index_part", bools(&self.index_part));
         o.set("filter_part", bools(&self.filter_part));
-        o.set("part_size", J::i(self.part_size));
         o.set("pin_index", bools(&self.pin_index));
         o.set("pin_filter", bools(&self.pin_filter));
         o.set("filter", J::Arr(self.filter.iter().map(|x| J::i(*x)).collect()));
@@ -203,7 +194,6 @@ impl TreeCfg {
             ("hash".into(), format!("{}", self.hash_ratio[0])),
             ("ipart".into(), format!("{}", self.index_part[0])),
             ("fpart".into(), format!("{}", self.filter_part[0])),
-            ("psize".into(), format!("{}", self.part_size)),
             ("ipin".into(), format!("{}", self.pin_index[0])),
             ("fpin".into(), format!("{}", self.pin_filter[0])),
             ("filter".into(), format!("{}", self.filter[0])),
